@@ -222,10 +222,20 @@ def run_unit(unit, repo_src=None, out_dir=None, extra_args=(), rlimit_mult=None,
         prim = [s for s in spans if s.get('is_primary')] or spans
         sec = [s for s in spans if not s.get('is_primary')]
         labels = []
+        def foreign(sp):
+            return not str(sp.get('file_name', '')).endswith(os.path.basename(path))
         def line_info(sp):
+            if foreign(sp):      # a clause of a library (vstd) specification, e.g. the trait-level ensures of From::from
+                return len(g.lines), 'library specification %s:%d' % (sp.get('file_name'), sp['line_start'])
             li = sp['line_start'] - 1
             return li, (g.lines[li] if 0 <= li < len(g.lines) else '')
-        if prim:
+        if prim and foreign(prim[0]) and any(not foreign(s_) for s_ in sec):
+            _sp = [s_ for s_ in sec if not foreign(s_)][0]
+            li, tx = line_info(_sp)
+            f.gen_line = li + 1; f.gen_text = tx
+            f.owner = g.owner[li] if li < len(g.owner) else None
+            f.origin = g.origin[li] if li < len(g.origin) else None
+        elif prim:
             li, tx = line_info(prim[0])
             f.gen_line = li + 1; f.gen_text = tx
             f.owner = g.owner[li] if li < len(g.owner) else None
@@ -246,7 +256,7 @@ def run_unit(unit, repo_src=None, out_dir=None, extra_args=(), rlimit_mult=None,
         if kind == 'postcondition' and prim:
             li, tx = line_info(prim[0])
             f.clause_line, f.clause_text = li + 1, tx
-            if sec:
+            if sec and not foreign(sec[0]):
                 li2, tx2 = line_info(sec[0])
                 f.gen_line, f.gen_text = li2 + 1, tx2
                 if g.owner[li2]: f.owner = g.owner[li2]
